@@ -238,6 +238,15 @@ func checkTypeSystem(c *core.Ctx, orderProp bool) {
 		}
 		spec, ok := parseForSpec(v0.Sources)
 		if !ok {
+			// the items in one source do not parse together: give the specification the items one source each
+			// (the document of a list of sources is the concatenation of their documents, C06)
+			var each []*ast.Source
+			for k, it := range items {
+				each = append(each, &ast.Source{Name: fmt.Sprintf("item%d.graphql", k), Input: it.Text})
+			}
+			spec, ok = parseForSpec(each)
+		}
+		if !ok {
 			// the renderer produced something the parser refuses: not a type-system question
 			c.AddExtraInt("cases_not_parsed", 1)
 			return
